@@ -43,7 +43,8 @@ theorem tie_footer_writes :
     Generated.C15.readerFooterReads = [("Uint64", 9, 17), ("Uint32", 0, 4), ("Uint32", 4, 8)] ∧
     Generated.C15.readerSortedCheck = "[]int{ 0, posOfOffset, posOfKeys, footerStart, }" :=
   ⟨rfl, rfl, rfl⟩
-theorem tie_min_width (v : Nat) : Table.minWidth v = Generated.C15.uint32MinWidth v := rfl
+/-- the offset table's width rule (C14's model of pkg/encoding, used by the table model) is the source's -/
+theorem tie_min_width (v : Nat) : FixedOffset.uint32MinWidth v = Generated.C15.uint32MinWidth v := rfl
 /-- the comparisons and statement orders the models mirror, as they stand in the source -/
 theorem tie_builder_source :
     Generated.C15.ensureIncreasingConds = ["b.first", "key <= b.maxKey"] ∧
@@ -146,7 +147,7 @@ theorem reject_out_of_order (K : KeySetOps B) (hK : K.Lawful) (items : List Put)
     ∃ b, Builder.run K (Builder.init K) (items.flatMap Put.ops) = some b ∧
       b.add K k v = some b ∧
       ∃ b', Builder.run K b (Put.stream k chunks).ops = some b' ∧
-        b'.written = b.written ∧ b'.offsets = b.offsets ∧ b'.keys = b.keys ∧ b'.offMax = b.offMax ∧
+        b'.written = b.written ∧ b'.offset = b.offset ∧ b'.keys = b.keys ∧
         b'.minKey = b.minKey ∧ b'.maxKey = b.maxKey ∧ b'.first = b.first ∧ b'.size = b.size := by
   obtain ⟨b, hrun, hinv, _⟩ := build_ok hK items
   obtain ⟨l, hl, hkl⟩ := hbad
@@ -156,7 +157,7 @@ theorem reject_out_of_order (K : KeySetOps B) (hK : K.Lawful) (items : List Put)
     cases hb : b.ensureIncreasingKey k with
     | false => rfl
     | true => exact absurd ((ensure_iff hinv.pre k).mp hb) hstale
-  refine ⟨b, hrun, by simp [Builder.add, he], b.prepare k, ?_, rfl, rfl, rfl, rfl, rfl, rfl, rfl, rfl⟩
+  refine ⟨b, hrun, by simp [Builder.add, he], b.prepare k, ?_, rfl, rfl, rfl, rfl, rfl, rfl, rfl⟩
   have hbk : (b.prepare k).sw.badKey = true := by simp [Builder.prepare, he]
   simp only [Put.ops, Builder.run, Builder.step]
   rw [run_writes_closed chunks (b.prepare k) [Op.commit] hbk]
